@@ -11,7 +11,12 @@ from vlib import algos
 ID = "C09"
 PROPS_FILE = "Props/C09.v"
 COQ_TARGETS = ["Harness/H09.vo"]
-ALLOWED_AXIOMS = []
+# only the two statements about REAL arithmetic (c09_spea2_fitness_*_is_real) use them
+ALLOWED_AXIOMS = [
+    "ClassicalDedekindReals.sig_forall_dec",
+    "ClassicalDedekindReals.sig_not_dec",
+    "FunctionalExtensionality.functional_extensionality_dep",
+]
 META = {
     "level_text": "Machine-checked proof (Coq) about literal step models of the survival selection of NSGA-II, eps-NSGA-II, GDE3, NSGA-III and SPEA2 "
                   "(built on the finished models of ParetoDominance.compare, Archive.add, nondominated_sort/truncate/split/prune and EpsilonBoxArchive.add): "
@@ -39,7 +44,9 @@ META = {
                   "violation >= 0), no object listed twice in offspring + parents, GDE3: |offspring| = |parents| = n. Error/fuel values: a Python exception is an "
                   "explicit result, SPEA2's thinning loop is proved never to run out of fuel. The oracle clause 'archive-member-never-in-population' goes beyond the "
                   "literal property text (it pins the anchored mechanism 'archive extended with survivors'). Nothing is left *_partial. "
-                  "No axioms (all theorems closed under the global context).",
+                  "Axioms: none (closed under the global context) for every theorem except c09_spea2_fitness_order_is_real and c09_spea2_fitness_lt1_is_real, "
+                  "which state that in REAL arithmetic raw + 1/(sqrt(d2)+2) orders like the model's pair (raw, d2) and is < 1 iff raw = 0; these two use the "
+                  "standard library's real-number axioms (ClassicalDedekindReals.sig_forall_dec, sig_not_dec, FunctionalExtensionality.functional_extensionality_dep).",
     "technique": "Coq proof (counting lemma over rank-monotone selections, generic comparators, exact Q arithmetic) + step-level correspondence on real runs (vm_compute) "
                  "+ per-step brute-force oracle",
 }
@@ -313,7 +320,6 @@ def archive_of(alg):
 
 def observe(cfg, steps):
     """run the real algorithm for `steps` calls of step(), logging each one"""
-    import platypus
     from platypus import TerminationCondition, Solution
     alg = build_lattice(cfg) if cfg["problem"] == "lattice" else build_registry(cfg)
     name = cfg["name"]
@@ -504,8 +510,7 @@ def desc(s):
 
 
 def oracle_run(ctx, cfg, obs, report=True):
-    """returns the list of (key, what) violations of the property on this run"""
-    from platypus import EpsilonDominance
+    """returns the list of (key, what, step) violations of the property on this run"""
     name = cfg["name"]
     out = []
     cmp = fresh_pareto()
@@ -747,6 +752,15 @@ def cases_of_run(ctx, cfg, obs, stats):
                     stats["cases_" + name] = stats.get("cases_" + name, 0) + 1
             if not ok:
                 stats["discarded_" + why] = stats.get("discarded_" + why, 0) + 1
+        # GeneticAlgorithm.initialize: sorted(population), fittest = population[0]
+        if s["kind"] == "init" and name == "GA" and s["batches"]:
+            gen = s["batches"][0]
+            if all(finite(x) for x in gen) and len(set(id(x) for x in gen)) == len(gen):
+                loc = Local()
+                offl = loc.many(gen)
+                survl = loc.many(s["survivors"])
+                lits.append((mk_case(10, cfg, loc.objs, [], offl, survl, len(gen), [], [], None), cfg, t, "ga-initialize"))
+                stats["cases_GA_initialize"] = stats.get("cases_GA_initialize", 0) + 1
         # (b) the archive over the whole step (initialisation, iterate, restarts): every add in order
         if arch is not None and s["arch_ops"]:
             is_eps = isinstance(arch._dominance, ED)
@@ -796,7 +810,7 @@ def gen_configs(ctx):
                 if name == "EpsNSGAII":
                     kw = {"eps": eps_for(nobjs), "window": rng.choice([None, 3, 5])}
                 if name == "SPEA2":
-                    kw = {"k": rng.choice([0, 1, 1, 2])}
+                    kw = {"k": min(rng.choice([0, 1, 1, 2]), pop - 2)}     # kth_distance indexes a row of pop-1 entries at initialisation
                 add(name, "lattice", nobjs, rng.random() < 0.4, pop, dirs_for(nobjs), **kw)
         add("NSGAII", "lattice", 1, False, 4)                     # one objective: the front is the set of best twins
         add("SPEA2", "lattice", 1, True, 5)
@@ -851,7 +865,13 @@ def run_one(ctx, cfg, steps, stats, lits, want_cases=True):
             off = [x for b in s["batches"] for x in b]
             U = off + s["parents"]
             f0 = front_of(U, cmp)
-            stats["front_fits" if len(f0) <= s["n"] else "front_overflows"] = stats.get("front_fits" if len(f0) <= s["n"] else "front_overflows", 0) + 1
+            w = "%s_front_%s" % (name, "smaller_than_n" if len(f0) < s["n"] else ("equals_n" if len(f0) == s["n"] else "overflows"))
+            stats[w] = stats.get(w, 0) + 1
+            if name == "NSGAIII" and s["picks"]:
+                stats["NSGAIII_steps_with_niche_picks"] = stats.get("NSGAIII_steps_with_niche_picks", 0) + 1
+                stats["NSGAIII_niche_picks"] = stats.get("NSGAIII_niche_picks", 0) + len(s["picks"])
+            if len(set(tuple(float(o) for o in x.objectives) for x in U)) < len(U):
+                stats["steps_with_twins"] = stats.get("steps_with_twins", 0) + 1
             if 0 < len(f0) < len(U):
                 ctx.mark((name, s["n"], tuple(tuple(float(o) for o in x.objectives) + (float(x.constraint_violation),) for x in U)))
         elif s["kind"] == "iter" and name in SINGLE:
